@@ -12,6 +12,9 @@ Before helper inlining (``surface_forms_repo``):
   C14  exit-stack callback    ``with ExitStack() as s: s.callback(F, a) ; REST``  ->  ``try: REST finally: F(a)``
                               (one callback registered first, the stack not used otherwise)
 
+  C16  constant selection     ``k = A if c else B`` (constants) ; ``d[k] = v``  ->  ``if c: d[A] = v else: d[B] = v``
+                              (k read once, by the next statement only)
+
 After helper inlining (``thread_none_tests_repo``):
 
   C15  jump threading         an if-tree whose every leaf ends with ``m = <value known to be None / not None>``
@@ -229,6 +232,18 @@ def _counting_zip(fn, counter: list) -> None:
     class D(ast.NodeTransformer):
         def visit_Call(self, node):
             self.generic_visit(node)
+            # list(map(F, X))  ->  [F(_v) for _v in X]
+            if isinstance(node.func, ast.Name) and node.func.id == "list" and len(node.args) == 1 and not node.keywords:
+                m = node.args[0]
+                if isinstance(m, ast.Call) and isinstance(m.func, ast.Name) and m.func.id == "map" and len(m.args) == 2 and not m.keywords and _chain(m.args[0]) and not isinstance(m.args[0], ast.Constant):
+                    counter[0] += 1
+                    return ast.copy_location(
+                        ast.ListComp(
+                            elt=ast.Call(func=clone(m.args[0]), args=[ast.Name(id="_v", ctx=ast.Load())], keywords=[]),
+                            generators=[ast.comprehension(target=ast.Name(id="_v", ctx=ast.Store()), iter=m.args[1], ifs=[], is_async=0)],
+                        ),
+                        node,
+                    )
             if isinstance(node.func, ast.Name) and node.func.id == "dict" and len(node.args) == 1 and not node.keywords:
                 z = node.args[0]
                 if isinstance(z, ast.Call) and isinstance(z.func, ast.Name) and z.func.id == "zip" and len(z.args) == 2 and all(k.arg == "strict" for k in z.keywords):
@@ -250,6 +265,34 @@ def _counting_zip(fn, counter: list) -> None:
 
 
 # --------------------------------------------------------------------------- C14
+def _is_callback(st, sv: str) -> bool:
+    return (
+        isinstance(st, ast.Expr)
+        and isinstance(st.value, ast.Call)
+        and isinstance(st.value.func, ast.Attribute)
+        and st.value.func.attr == "callback"
+        and isinstance(st.value.func.value, ast.Name)
+        and st.value.func.value.id == sv
+        and bool(st.value.args)
+    )
+
+
+def _protected(first, rest: list, counter: list, where) -> list:
+    """[temporaries..., try: rest finally: F(args)] for the registration statement ``first``."""
+    cb = first.value
+    args = list(cb.args[1:])
+    pre = []
+    for i, a in enumerate(args):
+        if not _chain(a):
+            counter[0] += 1
+            tmp = f"_cb{counter[0]}_{i}"
+            pre.append(ast.copy_location(ast.Assign(targets=[ast.Name(id=tmp, ctx=ast.Store())], value=a), first))
+            args[i] = ast.Name(id=tmp, ctx=ast.Load())
+    fin = ast.copy_location(ast.Expr(value=ast.copy_location(ast.Call(func=cb.args[0], args=args, keywords=list(cb.keywords)), cb)), first)
+    tr = ast.copy_location(ast.Try(body=rest, handlers=[], orelse=[], finalbody=[fin]), where)
+    return pre + [tr]
+
+
 def _exit_stack(stmts: list, counter: list) -> list:
     out = []
     for st in stmts:
@@ -259,33 +302,64 @@ def _exit_stack(stmts: list, counter: list) -> list:
             sv = st.items[0].optional_vars.id
             first = st.body[0]
             uses = [n for s_ in st.body for n in ast.walk(s_) if isinstance(n, ast.Name) and n.id == sv]
-            if (
-                isinstance(first, ast.Expr)
-                and isinstance(first.value, ast.Call)
-                and isinstance(first.value.func, ast.Attribute)
-                and first.value.func.attr == "callback"
-                and isinstance(first.value.func.value, ast.Name)
-                and first.value.func.value.id == sv
-                and first.value.args
-                and len(uses) == 1
-            ):
-                cb = first.value
-                args = list(cb.args[1:])
-                pre = []
-                for i, a in enumerate(args):
-                    if not _chain(a):
-                        counter[0] += 1
-                        tmp = f"_cb{counter[0]}_{i}"
-                        pre.append(ast.copy_location(ast.Assign(targets=[ast.Name(id=tmp, ctx=ast.Store())], value=a), first))
-                        args[i] = ast.Name(id=tmp, ctx=ast.Load())
-                fin = ast.copy_location(ast.Expr(value=ast.copy_location(ast.Call(func=cb.args[0], args=args, keywords=list(cb.keywords)), cb)), first)
-                tr = ast.copy_location(ast.Try(body=st.body[1:], handlers=[], orelse=[], finalbody=[fin]), st)
-                out.extend(pre)
-                out.append(tr)
+            if _is_callback(first, sv) and len(uses) == 1:
+                out.extend(_protected(first, st.body[1:], counter, st))
+                counter[0] += 1
+                continue
+            # registered under a condition:  with ExitStack() as s: if c: s.callback(F, a) ; X   REST
+            #   ->  if c: try: X ; REST  finally: F(a)   else: REST
+            if isinstance(first, ast.If) and not first.orelse and first.body and _is_callback(first.body[0], sv) and len(uses) == 1 and sum(len(list(ast.walk(s_))) for s_ in st.body[1:]) <= 200:
+                rest = st.body[1:]
+                then = _protected(first.body[0], first.body[1:] + [clone(s_) for s_ in rest], counter, st)
+                out.append(ast.copy_location(ast.If(test=first.test, body=then, orelse=rest), st))
                 counter[0] += 1
                 continue
         out.append(st)
     return out
+
+
+# --------------------------------------------------------------------------- C16
+def _select_constant(fn, counter: list) -> None:
+    """``k = A if c else B`` (A, B constants) directly followed by ONE simple statement that reads ``k`` once,
+    ``k`` not used anywhere else  ->  ``if c: S[k:=A] else: S[k:=B]``."""
+    uses: dict[str, int] = {}
+    for n in ast.walk(fn):
+        if isinstance(n, ast.Name):
+            uses[n.id] = uses.get(n.id, 0) + 1
+
+    def rec(stmts):
+        out = []
+        i = 0
+        while i < len(stmts):
+            st = stmts[i]
+            if not isinstance(st, (ast.FunctionDef, ast.AsyncFunctionDef, ast.ClassDef)):
+                for fld, lst in list(_blocks(st)):
+                    lst[:] = rec(lst)
+            nxt = stmts[i + 1] if i + 1 < len(stmts) else None
+            if isinstance(st, (ast.Assign, ast.AnnAssign)) and isinstance(getattr(st, "value", None), ast.IfExp) and isinstance(nxt, (ast.Assign, ast.AnnAssign, ast.AugAssign, ast.Expr, ast.Return)):
+                tg = st.targets if isinstance(st, ast.Assign) else [st.target]
+                ie = st.value
+                if len(tg) == 1 and isinstance(tg[0], ast.Name) and isinstance(ie.body, ast.Constant) and isinstance(ie.orelse, ast.Constant) and uses.get(tg[0].id, 0) == 2:
+                    reads = [x for x in ast.walk(nxt) if isinstance(x, ast.Name) and x.id == tg[0].id and isinstance(x.ctx, ast.Load)]
+                    if len(reads) == 1:
+                        def sub(val, nm=tg[0].id):
+                            class S(ast.NodeTransformer):
+                                def visit_Name(self, n):
+                                    if n.id == nm and isinstance(n.ctx, ast.Load):
+                                        return ast.copy_location(clone(val), n)
+                                    return n
+
+                            return S().visit(clone(nxt))
+
+                        out.append(ast.copy_location(ast.If(test=ie.test, body=[sub(ie.body)], orelse=[sub(ie.orelse)]), st))
+                        counter[0] += 1
+                        i += 2
+                        continue
+            out.append(st)
+            i += 1
+        return out
+
+    fn.body = rec(fn.body)
 
 
 def surface_forms_function(fn) -> int:
@@ -305,6 +379,7 @@ def surface_forms_function(fn) -> int:
     fn.body = _drop_marked(fn.body) or [ast.Pass()]
     _counting_zip(fn, counter)
     fn.body = _exit_stack(fn.body, counter)
+    _select_constant(fn, counter)
     if counter[0]:
         _refresh(fn)
     return counter[0]
@@ -388,6 +463,25 @@ def _leaves(tree: ast.If, name: str):
     return out if tree_(tree) else None
 
 
+def _raise_first(stmts: list) -> None:
+    """Inside a threaded tree: ``if c: A else: <always raises>`` (A does not leave)  ->  ``if not c: <raise>`` ; A."""
+    from .cfg import ends_in_raise
+
+    i = 0
+    while i < len(stmts):
+        st = stmts[i]
+        if isinstance(st, ast.If):
+            _raise_first(st.body)
+            _raise_first(st.orelse)
+            if st.orelse and not (len(st.orelse) == 1 and isinstance(st.orelse[0], ast.If)) and ends_in_raise(st.orelse) and not always_exits(st.body):
+                neg = st.test.operand if isinstance(st.test, ast.UnaryOp) and isinstance(st.test.op, ast.Not) else ast.copy_location(ast.UnaryOp(op=ast.Not(), operand=st.test), st.test)
+                tail = st.body
+                st.test, st.body, st.orelse = neg, st.orelse, []
+                stmts[i + 1:i + 1] = tail
+                i += len(tail)
+        i += 1
+
+
 def thread_none_tests_function(fn) -> int:
     n = 0
 
@@ -419,6 +513,7 @@ def thread_none_tests_function(fn) -> int:
                     for lst, v in leaves:
                         holds = (v is True) if kind == "notnone" else (v is False)
                         lst.extend(clone(s_) for s_ in (nxt.body if holds else nxt.orelse))
+                    _raise_first([st])
                     out.append(st)
                     i += 2
                     n += 1
